@@ -1,5 +1,6 @@
 import GBProofs.Props.C05
 import GBProofs.Layout14
+import GBProofs.SmoothInstance
 /-! C05: layout of the one-index arrays of the model (`BaseOneIndex`): `entry1_layout` (row `offset_i + m·L + f`
 is function `f` of segment `m` of shell `i`; spherical rows are the Cartesian rows contracted with the
 shell's matrix after `norm_cont`), `assemble1_get` (row-major `[function][point]`). -/
